@@ -62,19 +62,21 @@ class Execution(object):
 
     # -- naming of shim objects ---------------------------------------------------------------------
     def _name(self, kind, obj):
+        # (private names of the library are only used to NAME operations for the implementation-shaped model: a
+        # renamed attribute gives ":?" names, i.e. model drift, never an error and never a verdict)
         io = self.io
         if kind in ("acquire", "release"):
-            if io is not None and obj is io.lock:
+            if io is not None and obj is getattr(io, "lock", None):
                 return kind + ":mgr", 0
-            if io is not None and obj is io.halting:
+            if io is not None and obj is getattr(io, "halting", None):
                 return kind + ":halt", 0
             for i, p in enumerate(self.players):
-                if obj is p.lock:
+                if obj is getattr(p, "lock", None):
                     return kind + ":thr", i + 1
             return kind + ":?", 0
         if kind in ("set", "clear", "is_set", "wait"):
             for i, p in enumerate(self.players):
-                if obj is p.go:
+                if obj is getattr(p, "go", None):
                     return kind, i + 1
             return kind + ":?", 0
         if kind in ("start", "join"):
@@ -96,12 +98,18 @@ class Execution(object):
         b = self.backend
 
         def col(f, default):
-            return [f(i) if i < len(ps) else default for i in range(np_)]
+            out = []
+            for i in range(np_):
+                try:
+                    out.append(f(i) if i < len(ps) else default)
+                except AttributeError:          # a private attribute was renamed: the projection drifts, no error
+                    out.append(None)
+            return out
         return {
             "go": col(lambda i: bool(ps[i].go.flag), True),
             "halting": col(lambda i: bool(ps[i].halting), False),
-            "finished": bool(io.finished) if io is not None else False,
-            "nthreads": len(io._threads) if io is not None else 0,
+            "finished": bool(getattr(io, "finished", None)) if io is not None else False,
+            "nthreads": len(getattr(io, "_threads", ())) if io is not None else 0,
             "sstate": [b.streams[i].state if i < len(b.streams) else "none" for i in range(np_)],
             "nwritten": [len(b.streams[i].chunks) if i < len(b.streams) else 0 for i in range(np_)],
             "terminated": b.terminated,
@@ -236,7 +244,9 @@ class Execution(object):
         for i, st in enumerate(b.streams):
             exp = expected_bytes(self.audios[i]) if i < len(self.audios) else []
             got = [c[0] for c in st.chunks]
-            stopped = (i < len(self.players) and self.players[i].halting) or st.failed
+            # excused: the CALLER stopped this player, its device failed, or close(wait=False) stops everybody
+            user_stopped = any(e["k"] == "call-stop" and e["t"] == i + 1 for e in self.obs)
+            stopped = user_stopped or st.failed or (not self.wait)
             if any(c[1] != CHUNK for c in st.chunks):
                 bad.append(("chunk-frames", i + 1))
             if got != exp[:len(got)]:
@@ -765,7 +775,20 @@ def m3_fine(ctx, h, count):
 
 def validate(ctx, batches, fine=False):
     """TLC judges the recorded executions against AudioIO (fixed variant = the intended behaviour)."""
-    for bi, ((np_, nch, wait), runs) in enumerate(sorted(batches.items())):
+    def nameable(r):
+        for e in r["events"]:
+            if e["op"].endswith(":?") or any(v is None or (isinstance(v, list) and None in v)
+                                             for v in e["after"].values()):
+                return False
+        return True
+    for bi, ((np_, nch, wait), allruns) in enumerate(sorted(batches.items())):
+        runs = [r for r in allruns if nameable(r)]
+        for r in allruns:
+            if not nameable(r):
+                # the library's private names moved: the implementation-shaped model cannot even read the execution
+                ctx.drift("C17:trace:unnamed-operation", {"program": r["program"], "wait": wait, "chunks": list(nch)})
+        if not runs:
+            continue
         d = tlc.scratch_dir("c17t")
         root = os.path.join(d, "AudioIOTraceB%d.tla" % bi)
         with open(root, "w") as fh:
